@@ -401,7 +401,118 @@ func (l *lin) addTerm(t *Term, coef *big.Int) {
 	}
 }
 
+// bitField recognises t = (v div 2^a) mod 2^w  (a may be 0, the div absent).
+func bitField(t *Term) (v *Term, a, w uint, ok bool) {
+	if t.op == "div" && t.args[1].op == "const" && t.args[0].hi != nil && t.args[0].lo != nil && t.args[0].lo.Sign() >= 0 {
+		// topmost field: v div 2^a with v < 2^(a+w)
+		d := t.args[1].k
+		if d.Sign() > 0 && new(big.Int).And(d, new(big.Int).Sub(d, bi(1))).Sign() == 0 {
+			a = uint(d.BitLen() - 1)
+			n := uint(t.args[0].hi.BitLen())
+			if n > a {
+				return t.args[0], a, n - a, true
+			}
+		}
+		return
+	}
+	if t.op != "mod" || t.args[1].op != "const" {
+		return
+	}
+	m := t.args[1].k
+	if m.Sign() <= 0 || new(big.Int).And(m, new(big.Int).Sub(m, bi(1))).Sign() != 0 {
+		return
+	}
+	w = uint(m.BitLen() - 1)
+	inner := t.args[0]
+	if inner.op == "div" && inner.args[1].op == "const" {
+		d := inner.args[1].k
+		if d.Sign() > 0 && new(big.Int).And(d, new(big.Int).Sub(d, bi(1))).Sign() == 0 {
+			return inner.args[0], uint(d.BitLen() - 1), w, true
+		}
+		return
+	}
+	return inner, 0, w, true
+}
+
+// recombine merges 2^a*field(v,a,w) + 2^(a+w)*field(v,a+w,w2) into 2^a*field(v,a,w+w2).
+func (l *lin) recombine() {
+	for changed := true; changed; {
+		changed = false
+		type fld struct {
+			id   int
+			v    *Term
+			a, w uint
+		}
+		var fs []fld
+		for id, at := range l.atoms {
+			v, a, w, ok := bitField(at)
+			if !ok || !nonneg(v) {
+				continue
+			}
+			if l.terms[id].Cmp(pow2(a)) != 0 {
+				continue
+			}
+			fs = append(fs, fld{id, v, a, w})
+		}
+	outer:
+		for _, x := range fs {
+			for _, y := range fs {
+				if x.id != y.id && x.v == y.v && x.a+x.w == y.a {
+					delete(l.terms, x.id)
+					delete(l.atoms, x.id)
+					delete(l.terms, y.id)
+					delete(l.atoms, y.id)
+					l.addTerm(bitsField(x.v, x.a, x.w+y.w), pow2(x.a))
+					changed = true
+					break outer
+				}
+			}
+		}
+	}
+}
+
+// liftIte: when two or more summands are ite's on the same condition, hoist it:
+// Σ k_i*ite(c,a_i,b_i) + r  =  ite(c, Σ k_i*a_i + r, Σ k_i*b_i + r).
+func (l *lin) liftIte() *Term {
+	count := map[int]int{}
+	var best *Term
+	for _, at := range l.atoms {
+		if at.op == "ite" {
+			c := at.args[0]
+			count[c.id]++
+			if count[c.id] >= 2 && (best == nil || c.id < best.id) {
+				best = c
+			}
+		}
+	}
+	if best == nil {
+		return nil
+	}
+	a, b := newLin(), newLin()
+	a.c.Set(l.c)
+	b.c.Set(l.c)
+	for id, at := range l.atoms {
+		co := l.terms[id]
+		if at.op == "ite" && at.args[0] == best {
+			a.addTerm(at.args[1], co)
+			b.addTerm(at.args[2], co)
+		} else {
+			a.addTerm(at, co)
+			b.addTerm(at, co)
+		}
+	}
+	return Ite(best, a.build(), b.build())
+}
+
 func (l *lin) build() *Term {
+	if len(l.terms) >= 2 {
+		l.recombine()
+		if len(l.terms) >= 2 {
+			if t := l.liftIte(); t != nil {
+				return t
+			}
+		}
+	}
 	ids := make([]int, 0, len(l.terms))
 	for id := range l.terms {
 		ids = append(ids, id)
@@ -930,6 +1041,13 @@ func Eq(a, b *Term) *Term {
 	if dhi != nil && dhi.Sign() < 0 {
 		return False()
 	}
+	// an ite-tree with constant leaves compared with a constant: decide per leaf
+	if a.op == "ite" && b.op == "const" && constLeafCount(a, 0) > 0 {
+		return eqLeaves(a, b)
+	}
+	if b.op == "ite" && a.op == "const" && constLeafCount(b, 0) > 0 {
+		return eqLeaves(b, a)
+	}
 	// push equality through ite with constant branches when cheap
 	if a.op == "ite" && b.op == "const" && a.args[1].op != "ite" && a.args[2].op != "ite" {
 		x, y := Eq(a.args[1], b), Eq(a.args[2], b)
@@ -947,6 +1065,33 @@ func Eq(a, b *Term) *Term {
 }
 
 func Ne(a, b *Term) *Term { return Not(Eq(a, b)) }
+
+// constLeafCount: number of leaves if t is an ite-tree whose leaves are all
+// constants (at most 16 leaves), else 0.
+func constLeafCount(t *Term, depth int) int {
+	if t.op == "const" {
+		return 1
+	}
+	if t.op != "ite" || depth > 6 {
+		return 0
+	}
+	x := constLeafCount(t.args[1], depth+1)
+	if x == 0 {
+		return 0
+	}
+	y := constLeafCount(t.args[2], depth+1)
+	if y == 0 || x+y > 16 {
+		return 0
+	}
+	return x + y
+}
+
+func eqLeaves(t, c *Term) *Term {
+	if t.op == "const" {
+		return Bool(t.k.Cmp(c.k) == 0)
+	}
+	return Ite(t.args[0], eqLeaves(t.args[1], c), eqLeaves(t.args[2], c))
+}
 
 func Le(a, b *Term) *Term {
 	isC, dc, dlo, dhi := diffBounds(b, a) // want b-a >= 0
@@ -1145,18 +1290,32 @@ func BitAnd(x, y *Term, bits uint) *Term {
 	return Add(parts...)
 }
 
+// tighten records bounds that hold for the term by construction.
+func tighten(t *Term, lo, hi *big.Int) *Term {
+	if t.op == "const" {
+		return t
+	}
+	if t.lo == nil || t.lo.Cmp(lo) < 0 {
+		t.lo = lo
+	}
+	if t.hi == nil || t.hi.Cmp(hi) > 0 {
+		t.hi = hi
+	}
+	return t
+}
+
 func BitOr(x, y *Term, bits uint) *Term {
 	if disjointBits(x, y) {
 		return Add(x, y)
 	}
-	return Sub(Add(x, y), BitAnd(x, y, bits))
+	return tighten(Sub(Add(x, y), BitAnd(x, y, bits)), bi(0), new(big.Int).Sub(pow2(bits), bi(1)))
 }
 
 func BitXor(x, y *Term, bits uint) *Term {
 	if disjointBits(x, y) {
 		return Add(x, y)
 	}
-	return Sub(Add(x, y), MulC(bi(2), BitAnd(x, y, bits)))
+	return tighten(Sub(Add(x, y), MulC(bi(2), BitAnd(x, y, bits))), bi(0), new(big.Int).Sub(pow2(bits), bi(1)))
 }
 
 // ---------- printing ----------
